@@ -343,7 +343,12 @@ func (ap *AP) T(axes ...int) (retVal AP, a []int, err error) {
 		if axes[0] == 0 {
 			return
 		}
-		strides[0], strides[1] = 1, 1
+		// a vector has one meaningful stride: that of its only axis longer than 1 (not 1 for a strided view)
+		stride := currentStride[0]
+		if currentShape[0] == 1 && len(currentStride) > 1 {
+			stride = currentStride[1]
+		}
+		strides[0], strides[1] = stride, stride
 		shape[0], shape[1] = currentShape[1], currentShape[0]
 	default:
 		copy(shape, currentShape)
